@@ -3,11 +3,11 @@
   index keys.  Mathlib-free.
 
   arrow reader (`ReadParquetPyarrowFS`)
-    * `_extract_stats`                     (1715-1759)  → `extractFile`     (only: a column chunk without a statistics
+    * `_extract_stats`                     (1716-1760)  → `extractFile`     (only: a column chunk without a statistics
                                                                              object makes `col["statistics"][name]` raise)
-    * `_agg_dicts` with `min` / `max` / `sum` (1762-1775) → `pyFold`, `aggFile`
-    * `_aggregate_statistics_to_file`      (1794-1819)  → `aggregateToFile`
-    * `_divisions_from_statistics`         (1683-1712)  → `divisionsFromStatistics`
+    * `_agg_dicts` with `min` / `max` / `sum` (1763-1776) → `pyFold`, `aggFile`
+    * `_aggregate_statistics_to_file`      (1795-1820)  → `aggregateToFile`
+    * `_divisions_from_statistics`         (1683-1713, as fixed by D91 / fdf6fb1) → `divisionsFromStatistics`, `divLoop`
     * `_division_from_stats`               (936-949)    → `divisionFromStats`
     * `_fragment_sort_index`, `_divisions`, `fragments`, `fragments_unsorted` (957-1001) → `sortIndex`, `divisionsOut`, `fragments`
     * `_get_lengths`                       (850-859)    → `arrowGetLengths`
@@ -18,7 +18,7 @@
     * `_calculate_divisions`               (1410-1427)  → `calculateDivisions`
     * `_plan` (the part after `_construct_collection_plan`, no filters, no row-group aggregation) (1283-1319) → `plan`
     * `_get_lengths` / `_update_length_statistics` (1321-1354) → `fsspecGetLengths`
-  `ReadParquet._simplify_up` for `Lengths` / `Len` (621-629) → `lengthsPushdown`, `lenPushdown`.
+  `ReadParquet._simplify_up` for `Lengths` / `Len` (617-625) → `lengthsPushdown`, `lenPushdown`.
 
   Conventions: a function that can raise returns `Res` (`raised` = the Python code raises TypeError / KeyError /
   IndexError / AssertionError there); indexing a list with a list of positions is `pick` (`none` = IndexError).
@@ -145,13 +145,28 @@ def lexLe (a b : Int × Int) : Bool := decide (a.1 < b.1) || (decide (a.1 = b.1)
 def argsortPairs (mm : List (Int × Int)) : List ((Int × Int) × Nat) :=
   mm.zipIdx.mergeSort (fun a b => lexLe a.1 b.1)
 
-/-- `Series.is_monotonic_increasing` on the tuples -/
-def isMonotone : List (Int × Int) → Bool
-  | a :: b :: t => lexLe a b && isMonotone (b :: t)
-  | _ => true
+/-- the loop of `_divisions_from_statistics` (after fix D91, commit fdf6fb1)
 
-/-- the loop `for file_min, file_max in sorted_minmax: divisions.append(file_min); last_max = file_max` and the
-    final `divisions.append(last_max)` -/
+        for file_min, file_max in sorted_minmax:
+            if last_max is not None and file_min < last_max:
+                return (None,) * (n + 1), None          # the index ranges of two files overlap
+            divisions.append(file_min)
+            last_max = file_max
+
+    `none` = overlap found; otherwise the appended mins and the final `last_max` -/
+def divLoop : Option Int → List (Int × Int) → Option (List Int × Option Int)
+  | last, [] => some ([], last)
+  | last, (mn, mx) :: t =>
+    if (match last with
+        | some l => decide (mn < l)
+        | none => false) then none
+    else
+      match divLoop (some mx) t with
+      | some (ds, l) => some (mn :: ds, l)
+      | none => none
+
+/-- the divisions of files read in the order `S`: every min, then the last max (specification form of the
+    successful loop followed by `divisions.append(last_max)`, see `divLoop_eq` in Lemmas/ParquetStats.lean) -/
 def divsOf (S : List (Int × Int)) : List Int :=
   S.map (·.1) ++ (match S.getLast? with
     | some l => [l.2]
@@ -190,8 +205,10 @@ def completeStats (agg : List AggFile) : Option (List (Int × Int)) :=
 /-- the body of `_divisions_from_statistics` once `minmax` is a list of number pairs -/
 def divisionsOfMinMax (mm : List (Int × Int)) : DivOut :=
   let srt := argsortPairs mm
-  if isMonotone (srt.map (·.1)) then .known (divsOf (srt.map (·.1))) (srt.map (·.2))
-  else .unknown mm.length none
+  match divLoop none (srt.map (·.1)) with
+  | none => .unknown mm.length none                        -- overlapping ranges
+  | some (ds, some l) => .known (ds ++ [l]) (srt.map (·.2))
+  | some (_, none) => .unknown 0 (some (srt.map (·.2)))    -- no file at all: `(None,)` (not reachable: `[]` raises before)
 
 /-- `_divisions_from_statistics(aggregated_stats, index_name)` when the index column is found in the statistics
     (otherwise the function raises ValueError before looking at any number) -/
